@@ -19,6 +19,7 @@ import (
 	"verif/harness"
 	"verif/impl"
 	"verif/model"
+	"verif/univ"
 )
 
 type moPoint struct{ n, alts, choice int }
@@ -198,6 +199,40 @@ func mapOrderPass(c *shardCtx, prop string, panicsOnly bool) {
 	for _, t := range moWeak {
 		exprs = append(exprs, ex{t, true})
 	}
+	// every sentence of the projection fragment up to weight 4 (thorough 5) that contains an object wildcard
+	seenText := map[string]bool{}
+	for _, e := range exprs {
+		seenText[e.text] = true
+	}
+	pw := 4
+	if c.thorough() {
+		pw = 5
+	}
+	pg := univ.NewGen(univ.ProjFragment())
+	for w := 1; w <= pw; w++ {
+		for _, snt := range pg.Sentences(w) {
+			toks := pg.Tokens(snt)
+			star := false
+			for i, t := range toks {
+				if t.Kind == model.STAR && !(i > 0 && toks[i-1].Kind == model.LBRACKET && i+1 < len(toks) && toks[i+1].Kind == model.RBRACKET) {
+					star = true
+				}
+			}
+			if star {
+				// sentences whose grouping differs between the canonical and the de-facto reading of "X.*" are the
+				// domain of a recorded known finding (judged, by cause, in C02/C03): not re-judged here
+				a1, _, e1 := model.Parse(toks)
+				a2, _, e2 := model.ParseDeFacto(toks)
+				if e1 != nil || e2 != nil || model.Render(a1) != model.Render(a2) {
+					continue
+				}
+			}
+			if t := model.Spell(toks, model.Tight); star && !seenText[t] {
+				seenText[t] = true
+				exprs = append(exprs, ex{t, false})
+			}
+		}
+	}
 	var docs []interface{}
 	for _, d := range moDocs {
 		docs = append(docs, univJ(d))
@@ -265,14 +300,29 @@ func mapOrderPass(c *shardCtx, prop string, panicsOnly bool) {
 				}
 				return false
 			}
-			// first with the deviation bound; without bound when the call makes few order requests
-			r := exploreMapOrders(bound, 50000, call, admissible)
+			// iterate the deviation bound: 1, 2, (3); a larger bound is attempted only when the previous one needed
+			// few executions, so no execution cap is ever hit and the bound completed is known per pair; calls that
+			// make few order requests are then explored without any bound
+			var r moResult
+			completed := 0
+			for b := 1; b <= bound; b++ {
+				rb := exploreMapOrders(b, 200000, call, admissible)
+				rb.execs += r.execs
+				rb.points += r.points
+				r = rb
+				completed = b
+				if r.bad != "" || rb.capped || rb.execs > 4000 {
+					break
+				}
+			}
 			if r.bad == "" && !r.capped && r.maxPoints > 0 && r.maxPoints <= unboundedBelow {
-				r2 := exploreMapOrders(-1, 50000, call, admissible)
+				r2 := exploreMapOrders(-1, 200000, call, admissible)
 				r2.execs += r.execs
 				r2.points += r.points
 				r = r2
 				c.add("maporder_pairs_explored_without_bound", 1)
+			} else {
+				c.add(fmt.Sprintf("maporder_pairs_completed_at_bound_%d", completed), 1)
 			}
 			c.add("maporder_pairs", 1)
 			c.add("maporder_executions", int64(r.execs))
@@ -282,7 +332,7 @@ func mapOrderPass(c *shardCtx, prop string, panicsOnly bool) {
 				c.add("maporder_pairs_with_several_outcomes", 1)
 			}
 			if r.capped {
-				c.res.Capped = "map-order exploration hit the cap of 50000 executions for a pair"
+				c.res.Capped = "map-order exploration hit the cap of 200000 executions for a pair"
 			}
 			if r.bad != "" {
 				kind, sig := "wrong-value", "map-order-outcome:"+e.text
